@@ -130,6 +130,8 @@ def register_impls(pieces, sn):
                     return getattr(ast, "value", None)
             t.Scalar(p["name"], schema_name=sn)(Sc())
         if p["kind"] == "DIRECTIVE" and not p["ext"]:
+            if p.get("impl") == "none":
+                continue          # declared in the SDL only (metadata directives need no implementation)
             if p.get("impl") == "sync-hook":
                 class D:
                     def on_field_execution(self, directive_args, next_resolver, parent, args, ctx, info):
